@@ -599,8 +599,21 @@ def _r12i(cx, resize, fit):
     if len(tail) == 1 and isinstance(fit.body[-1], ast.Return) and norm(fit.body[-1]) == "return result" and not any(
             isinstance(x, (ast.Assign, ast.AugAssign, ast.Expr)) for x in fit.body[fit.body.index(next(a for a in [rs[0]] + list(ancestors(rs[0])) if a in fit.body)) + 1:-1]):
         tail = tail + [fit.body[-1]]        # single exit: the branch falls through to the function's final `return result`
+    from sa.guards import xnorm_at as _xn
+    p0 = params(fit)[0]
+
+    def _own_chunks(e):
+        """the cell's own chunk list: the parameter, or a local every definition of which is the parameter / its chunks / a copy"""
+        if is_name(e, p0):
+            return True
+        if not isinstance(e, ast.Name):
+            return False
+        ds = [v for _s, v in assignments(fit, e.id) if v is not None and not (isinstance(v, ast.Call) and call_name(v) == "resize_chunks_list")]
+        forms = (p0, f"[{p0}]", f"{p0}.chunks.copy()", f"list({p0}.chunks)", f"list({p0})", f"{p0}.chunks", f"{p0}.copy()", f"{p0}[:]", f"{p0}.chunks[:]")
+        return bool(ds) and all(norm(v) in forms for v in ds)
+    a0, a1 = rs[0].value.args[0], rs[0].value.args[1]
     ok = len(tail) == 2 and norm(tail[0]).startswith("result.append(") and "'.' * dots_len" in norm(tail[0]).replace("*", " * ").replace("  ", " ") and norm(tail[1]) == "return result" \
-        and norm(rs[0].value.args[0]) == params(fit)[0] and norm(rs[0].value.args[1]) == "visible_text_len"
+        and _own_chunks(a0) and _xn(a1, rs[0]) == "width - dots_len"
     cx.ob("R12i", rs[0], ok, "truncated cell = resize(cell's own chunks, width - dots) followed by the dots chunk" if ok else "the truncation branch does not return resize(own chunks, visible length) + dots")
 
 
